@@ -215,7 +215,9 @@ func c17AltsFor(t reflect.Type) []c17Alt {
 	case reflect.String:
 		return []c17Alt{mk("empty", ""), mk("a", "a"), mk("len255", strings.Repeat("x", 255)), mk("len256", strings.Repeat("y", 256)), mk("len600", strings.Repeat("z", 600)), mk("utf8", "héllo✓"),
 			// multi-byte characters lying across the 255-byte fragment boundary: fragments are cut by bytes, not by characters
-			mk("2-byte-rune-across-255", strings.Repeat("x", 254)+"é-tail"), mk("3-byte-rune-across-255", strings.Repeat("x", 253)+"✓-tail")}
+			mk("2-byte-rune-across-255", strings.Repeat("x", 254)+"é-tail"), mk("3-byte-rune-across-255", strings.Repeat("x", 253)+"✓-tail"),
+			// a Go string is a byte string: bytes that are not valid UTF-8 travel unchanged
+			mk("invalid-utf8", "caf\xe9 \xff\xfe \xed\xa0\x80")}
 	case reflect.Slice:
 		if t.Elem().Kind() == reflect.Uint8 {
 			return []c17Alt{mk("nil", []byte(nil)), mk("one-zero", []byte{0}), mk("len255", pat(255, 3)), mk("len256", pat(256, 4)), mk("len600", pat(600, 5)), mk("zeros16", make([]byte, 16))}
@@ -882,7 +884,7 @@ func init() {
 	fw.Register(&fw.Check{
 		ID:          "C17",
 		Level:       "exploration",
-		Rule:        "for every RTP message type of the library (setup endpoints, its response, selected and supported stream configurations, supported RTP configuration, streaming status) and three synthetic structs covering every field kind (8/16/32/64-bit ints, float32, bool, string, bytes, nested struct, tagged list, inline list, list elements longer than one fragment; fields tagged 0 holding byte strings and strings of up to 600 bytes; an inline list whose elements begin with a string; strings with 2- and 3-byte characters lying across the 255-byte fragment boundary): a base value, then every field (reflection-enumerated leaf) moved through its boundary alphabet with 1 and all pairs of 2 simultaneous deviations (thorough: triples); bytes compared with an independent reflective little-endian TLV8 encoder, then Unmarshal(Marshal(v)) compared with v; the tag under which each field of each RTP message type travels is compared with the known wire layout (a reflective reference encoder follows a field that moves to another tag, a peer does not); ownership: the bytes returned by Marshal must survive later Marshal calls, Unmarshal must not modify its input and decoding the same bytes twice must agree. Decoder inputs per type: all byte strings of length ≤2, every prefix and 8 substitutions per byte of a valid encoding, every tag 0..15 with value lengths 0..9. distinct_nontrivial = distinct (target type, case kind) classes A fourth synthetic struct uses tags 126, 127, 128, 129, 131, 200, 250, 254, 255. Plus, in a subprocess built with a scheduling point before EVERY statement of hc's packages (textual insertion through go build -overlay): every interleaving with at most 1 (thorough 2) preemptions of pairs of operations on disjoint objects — and, where the property is about served requests, of pairs of handlers on two verified connections of one accessory touching different characteristics — each side must observe exactly what it observes when the two run one after the other (module-level mutable state is what makes them differ).",
+		Rule:        "for every RTP message type of the library (setup endpoints, its response, selected and supported stream configurations, supported RTP configuration, streaming status) and three synthetic structs covering every field kind (8/16/32/64-bit ints, float32, bool, string, bytes, nested struct, tagged list, inline list, list elements longer than one fragment; fields tagged 0 holding byte strings and strings of up to 600 bytes; an inline list whose elements begin with a string; strings with 2- and 3-byte characters lying across the 255-byte fragment boundary, strings with bytes that are not valid UTF-8): a base value, then every field (reflection-enumerated leaf) moved through its boundary alphabet with 1 and all pairs of 2 simultaneous deviations (thorough: triples); bytes compared with an independent reflective little-endian TLV8 encoder, then Unmarshal(Marshal(v)) compared with v; the tag under which each field of each RTP message type travels is compared with the known wire layout (a reflective reference encoder follows a field that moves to another tag, a peer does not); ownership: the bytes returned by Marshal must survive later Marshal calls, Unmarshal must not modify its input and decoding the same bytes twice must agree. Decoder inputs per type: all byte strings of length ≤2, every prefix and 8 substitutions per byte of a valid encoding, every tag 0..15 with value lengths 0..9. distinct_nontrivial = distinct (target type, case kind) classes A fourth synthetic struct uses tags 126, 127, 128, 129, 131, 200, 250, 254, 255. Plus, in a subprocess built with a scheduling point before EVERY statement of hc's packages (textual insertion through go build -overlay): every interleaving with at most 1 (thorough 2) preemptions of pairs of operations on disjoint objects — and, where the property is about served requests, of pairs of handlers on two verified connections of one accessory touching different characteristics — each side must observe exactly what it observes when the two run one after the other (module-level mutable state is what makes them differ).",
 		Run:         c17Run,
 		Replay:      c17Replay,
 		Budget:      func(string) time.Duration { return 20 * time.Minute },
